@@ -75,27 +75,29 @@ theorem TypeKeysAgree.mono {x y x' y' : Val} (h : TypeKeysAgree x y) (hx : types
 
 def kind : Val → Nat
   | .undef => 0 | .dflt => 1 | .bool _ => 2 | .int _ => 3 | .float _ => 4 | .str _ => 5 | .regexp _ => 6
-  | .binary _ => 7 | .array _ => 8 | .entry _ _ => 8 | .hash _ => 9 | .typ _ => 10 | .sensitive _ => 11
+  | .binary _ => 7 | .array _ => 8 | .entry _ _ => 8 | .hash _ => 9 | .typ _ => 10 | .timespan _ => 11
+  | .timestamp _ _ => 12 | .sensitive _ => 13
 
 def kindHead : Nat → Bytes
   | 0 => [1, 0x75] | 1 => [1, 0x64] | 2 => [1, 0x62] | 3 => [1, 0x69] | 4 => [1, 0x66] | 5 => [1, 0x73]
-  | 6 => [1, 0x72] | 7 => [0, 0x42] | 8 => [0, 0x41] | 9 => [0, 0x48] | 10 => [1, 0x74] | _ => []
+  | 6 => [1, 0x72] | 7 => [0, 0x42] | 8 => [0, 0x41] | 9 => [0, 0x48] | 10 => [1, 0x74] | 11 => [1, 0x44]
+  | 12 => [1, 0x54] | _ => []
 
 theorem tyKey_head (t : Ty) : ∃ r, tyKey t = 1 :: 0x74 :: r := by
   cases t <;> simp [tyKey]
 
 theorem mk_head (x : Val) (h : cmp x = true) : ∃ r, mk x = kindHead (kind x) ++ r := by
-  cases x <;> simp [mk, mark, kb, kind, kindHead, undefKey, defaultKey, boolKey, intKey, floatKey, strMark]
+  cases x <;> simp [mk, mark, kb, kind, kindHead, undefKey, defaultKey, boolKey, intKey, floatKey, strMark, timespanKey, timestampKey]
   exact tyKey_head _
 
 theorem veq_kind {x y : Val} (h : kind x ≠ kind y) : veq x y = false := by
   cases x <;> cases y <;> simp [kind] at h <;> simp [veq]
 
-theorem kindHead_inj : ∀ a, a < 11 → ∀ b, b < 11 → kindHead a = kindHead b → a = b := by decide
+theorem kindHead_inj : ∀ a, a < 13 → ∀ b, b < 13 → kindHead a = kindHead b → a = b := by decide
 
-theorem kindHead_length : ∀ a, a < 11 → (kindHead a).length = 2 := by decide
+theorem kindHead_length : ∀ a, a < 13 → (kindHead a).length = 2 := by decide
 
-theorem kind_lt {x : Val} (cx : cmp x = true) : kind x < 11 := by
+theorem kind_lt {x : Val} (cx : cmp x = true) : kind x < 13 := by
   cases x <;> simp [kind]; simp [cmp] at cx
 
 theorem mk_kind {x y : Val} (cx : cmp x = true) (cy : cmp y = true) (h : kind x ≠ kind y) : mk x ≠ mk y := by
@@ -134,6 +136,36 @@ theorem floatKey_iff {a b : Nat} (ha : cmp (.float a) = true) (hb : cmp (.float 
     simp only [floatKey, List.append_cancel_left_eq] at h
     refine be64_inj ?_ ?_ h <;> (simp only [fnorm]; split <;> omega)
   · intro h; simp [floatKey, h]
+
+theorem tsSecs_range {n : Int} (h1 : minInt ≤ n) (h2 : n ≤ maxInt) : minInt ≤ tsSecs n ∧ tsSecs n ≤ maxInt := by
+  unfold tsSecs minInt maxInt at *
+  by_cases h : 0 ≤ n
+  · rw [Int.tdiv_eq_ediv_of_nonneg h]; omega
+  · have e : n = -(-n) := by omega
+    rw [e, Int.neg_tdiv, Int.tdiv_eq_ediv_of_nonneg (by omega)]
+    omega
+
+theorem timespanKey_iff {a b : Int} (ha : cmp (.timespan a) = true) (hb : cmp (.timespan b) = true) :
+    timespanKey a = timespanKey b ↔ tsSecs a = tsSecs b := by
+  simp only [cmp, Bool.and_eq_true, decide_eq_true_eq] at ha hb
+  have ra := tsSecs_range ha.1 ha.2
+  have rb := tsSecs_range hb.1 hb.2
+  constructor
+  · intro h
+    simp only [timespanKey, List.append_cancel_left_eq] at h
+    exact u64OfInt_inj ra rb (be64_inj (u64OfInt_lt _) (u64OfInt_lt _) h)
+  · intro h; simp [timespanKey, h]
+
+theorem timestampKey_iff {a b a' b' : Int} (h1 : cmp (.timestamp a b) = true) (h2 : cmp (.timestamp a' b') = true) :
+    timestampKey a b = timestampKey a' b' ↔ a = a' ∧ b = b' := by
+  simp only [cmp, Bool.and_eq_true, decide_eq_true_eq] at h1 h2
+  constructor
+  · intro h
+    simp only [timestampKey, List.append_cancel_left_eq] at h
+    have := List.append_inj h (by simp [be64_length])
+    exact ⟨u64OfInt_inj h1.1 h2.1 (be64_inj (u64OfInt_lt _) (u64OfInt_lt _) this.1),
+      u64OfInt_inj h1.2 h2.2 (be64_inj (u64OfInt_lt _) (u64OfInt_lt _) this.2)⟩
+  · rintro ⟨rfl, rfl⟩; rfl
 
 /-! ### the induction -/
 
@@ -291,6 +323,14 @@ theorem mk_iff (hT : ∀ a b, TyWF a = true → TyWF b = true → tyKey a = tyKe
     simp only [mk, mark, kb, List.nil_append, veq]
     simp only [cmp] at cx cy
     exact ⟨hT t t' cx cy, tka t (by simp [typesIn]) t' (by simp [typesIn])⟩
+  · intro n y cx cy _
+    cases y with
+    | timespan m => simp [mk, mark, kb, veq, timespanKey_iff cx cy]
+    | _ => exact other _ _ cx cy (by simp [kind])
+  · intro a b y cx cy _
+    cases y with
+    | timestamp a' b' => simp [mk, mark, kb, veq, timestampKey_iff cx cy]
+    | _ => exact other _ _ cx cy (by simp [kind])
 
 /-! ### the direction that needs no hypothesis about types: equal keys ⇒ equal values -/
 
@@ -381,6 +421,8 @@ theorem mk_imp (hT : ∀ a b, TyWF a = true → TyWF b = true → tyKey a = tyKe
     simp only [cmp] at cx cy
     simp only [veq]
     exact hT t t' cx cy h
+  · intro n y; exact leaf _ y rfl
+  · intro a b y; exact leaf _ y rfl
 
 /-! ### top level: `px.ToKey` -/
 
